@@ -33,6 +33,10 @@ def known_devs():
     return devs
 
 
+def strip_lemmas(cfg_text):
+    return "\n".join(l for l in cfg_text.splitlines() if not (l.startswith("INVARIANT") and "Emit" not in l)) + "\n"
+
+
 def atom_cfg(foreign, devs):
     return f"""CONSTANTS
   OneChar = {C.tla_str(bool(devs))}
@@ -372,6 +376,7 @@ def run(replay=None):
         # a design-level fact about the published tables fails (ambiguous notation / symbol ending in an exponent character)
         V.fail({"_kind": "tables", "tlc": r1.cex[:1500]}, "unique decodability of prefix o symbol over the live tables",
                r1.violated, "TLC invariant " + r1.violated + " of UnitAtomGen violated", tags=["tables"], failure="notation")
+        r1.records = C.run_tlc(wd, "UnitAtomGen", strip_lemmas(atom_cfg(foreign, devs))).records
     unref = [x for x in r1.records if not x["refines"] and not x["known"]]
     if unref:
         V.notes.append(f"TLC: machine transcription differs from the ideal on {len(unref)} atom case(s) outside the known deviations, e.g. {unref[0]['text']!r}")
@@ -418,12 +423,13 @@ def run(replay=None):
     states += r4.distinct; trans += r4.generated
     if r4.violated:
         V.notes.append("TLC (concretised cases): machine differs from ideal outside the known deviations: " + r4.cex[:600])
+        r4.records = C.run_tlc(wd, "UnitExprMC", strip_lemmas(expr_cfg("file", 0, 0, devs)), env={"UEXPR_IN": fin}).records
     recs = r4.records
     for rec in recs:
         c = cases[rec["id"] - 1]
         rec["_ckind"] = c["kind"]
         rec["_row"] = c.get("row")
-    if len(recs) != len(cases) and not r4.violated:
+    if len(recs) != len(cases):
         raise C.MachineryError(f"TLC annotated {len(recs)} of {len(cases)} concretised cases")
     res = C.pmap(replay_case, recs)
     account("case", recs, res)
